@@ -34,10 +34,10 @@ Lemma stmt_rows_declared names eq y i k0 (e : sexpr) :
   (i < length names)%nat /\ forall x k, In (x, k) (expr_reads string e) -> (x < length names)%nat.
 Proof.
   unfold stmt_of_equation. intros H.
-  destruct (stmt_of_tokens_reads _ _ _ _ _ _ H) as [Hy Hr].
+  destruct (stmt_of_tokens_reads _ _ _ _ _ _ H) as (Hy & st & _ & _ & Hr & Hset).
   split; [eapply row_of_lt; exact Hy|]. intros x k Hin.
   assert (Hs : In (Some (x, k)) (tok_reads (row_of names) (lex_items LNone (scan_items eq)))).
-  { rewrite Hr. unfold somes. right. apply in_map. exact Hin. }
+  { rewrite Hr. unfold somes. right. apply in_map. apply Hset. exact Hin. }
   destruct (tok_reads_rows _ _ _ _ Hs) as [nm Hn]. eapply row_of_lt; exact Hn.
 Qed.
 
